@@ -116,6 +116,59 @@ CLAIMED = {
         note="NOT decided: that the timers fire and connect() fails BY its deadline (reactor liveness). Assumed: HKDF injective, "
              "Deferred/callLater semantics, no synchronous re-entry from cancel().",
         design="6/C07"),
+    "C01": dict(
+        text="What is fed into the PAKE and what is derived from the key is verified on the real functions: to_bytes == utf8(NFC(u)); "
+             "_SortedKey.build_pake keys SPAKE2 with to_bytes(code) and idSymmetric to_bytes(appid); got_pake/compute_key (key = "
+             "finish(msg); version message sealed under the phase key of (side,'version'); an exception from finish propagates and "
+             "records no key; no pake_v1 => scared); derive_key == HKDF(key, length, info=purpose) and both wormhole derive_key "
+             "wrappers (NoKeyError iff no key); Key machine output bodies deliver the code before a stashed pake; lemmas: equal "
+             "NFC-normalised codes => equal passwords, different purposes => different keys, same key => same verifier.",
+        note="Assumed (cryptographic, not provable here): SPAKE2 'same key iff same password and identity', HKDF injective in info, "
+             "unicodedata.normalize as a function. The clause 'nothing is delivered on mismatch / WrongPasswordError' is the "
+             "machine-level part: checked by the mailbox-cluster engine (post:C01:* obligations) when that engine's claim is enabled.",
+        design="6/C01"),
+    "C02": dict(
+        text="derive_phase_key binds side and phase (purpose = prefix + sha256(side) + sha256(phase); equal purposes => equal "
+             "digests), encrypt_data/decrypt_data (32-byte key, one fresh 24-byte nonce, SecretBox INT-CTXT contract), "
+             "Send._encrypt_and_send (sealed under OUR side and the phase sent), Receive.got_message (opened under the message's "
+             "CLAIMED side and phase; CryptoError => bad, else exactly that plaintext), Mailbox.rx_message (own side never "
+             "forwarded), Mailbox.N_release_and_accept (a phase is forwarded at most once), Boss.got_message dispatch and the "
+             "Boss.W_received reorder buffer (loop invariant: delivered in order, once).",
+        note="Assumed: sha256 injective (collision resistance), HKDF, AEAD unforgeability, SPAKE2 rejects reflected/malformed "
+             "elements. 'ignores or closes with an error on fabricated bodies' is the machine-level part (mailbox-cluster engine).",
+        design="6/C02"),
+    "C10": dict(
+        text="Outbound class invariant (seqnums contiguous, queue ends at next-1, unsent is a suffix of the queue, no connection => "
+             "nothing unsent) is pre- and postcondition of every Outbound method; build_record/queue_and_send_record/"
+             "use_connection (everything un-acked replayed first)/resumeProducing (backlog before producers)/"
+             "stop_using_connection/handle_ack (exactly the records with seqnum <= ack retired, others kept in order); "
+             "Manager.send_data/open/close each one record; Manager.got_record always acks and dispatches iff above the "
+             "watermark; lemma receive_run: a contiguous run is dispatched exactly once each, in order.",
+        note="Assumed: L2 delivers records whole and in order (C12), acks come only from got_record, list-operation facts "
+             "(validated on all lists up to length 3, not proved for all lengths). Liveness (a replacement connection is made, "
+             "acks eventually arrive) is not decided; the step 'a cut prefix of a contiguous stream is contiguous' is argued, not "
+             "machine-checked. Precondition: one producer object is registered for one subchannel only.",
+        design="6/C10"),
+    "C15": dict(
+        text="Outbound producer bookkeeping invariants (partition paused/unpaused, paused before unpaused in the rotation, _paused "
+             "=> nobody unpaused, no connection => _paused, at quiescent points _paused or nobody paused) are established by "
+             "every method; resumeProducing resumes one producer at a time only while not paused, after moving it to the back, "
+             "with re-entrant pauseProducing modelled rely/guarantee style; pauseProducing tells each un-paused producer exactly "
+             "once; Inbound pauses the connection iff some subchannel asked, carried over to a replacement connection.",
+        note="Assumed: producers honour pause; Producer.pauseProducing/startStreaming and transport.registerProducer do not call "
+             "back; a new connection starts un-paused. 'eventually resumed' (that the transport calls resume again) is not "
+             "decided. Same single-registration precondition as C10.",
+        design="6/C15"),
+    "C18": dict(
+        text="OneShotObserver/SequenceObserver/EventualQueue (result latched once, every waiter scheduled exactly once via the "
+             "eventual queue, FIFO pairing, after an error every present and future waiter errbacks, _turn runs each queued call "
+             "once and later-queued calls in a later turn: loop invariants) and all _DeferredWormhole got_*/get_*/received/"
+             "closed/close methods (after closed every outstanding and future get_* fails; close after closed does not call the "
+             "Boss again).",
+        note="The causal ORDER of events (code, key, verifier, versions/messages, closed last; version submitted before any data "
+             "phase) is the machine-level part: post:C18:* obligations of the mailbox-cluster engine. Assumed: Twisted Deferred/"
+             "Failure as boundary objects, stored calls may raise and may re-queue (append-only).",
+        design="6/C18"),
 }
 NOT_BUILT = "check not built yet (framework under construction; see DESIGN.md section 11)"
 
